@@ -11,6 +11,8 @@ with an in-memory origin.  Time is counted in ticks of 1/16 s (exact in binary f
                         read the request body: the writer task stays alive until "written")}
   ["dns"]               the (single, shared) in-flight DNS lookup answers
   ["conn", t]           t's TCP connection attempt succeeds
+  ["tls", t]            (https histories, case["tls"]) t's TLS handshake completes; until then the request is still
+                        connecting for the model: sock_connect / connect / total must bound the handshake too
   ["written", t]        the peer drains t's request body (resume_writing)
   ["data", t, kind]     response bytes for t arrive: kind = "part" (inside the current unit: mid-line in the
                         head, mid-chunk in the body), "head" (rest of the head), "big" (body bytes beyond the
@@ -68,8 +70,13 @@ TRUSTED = [
 ASSUMPTIONS = [
     "One origin (one connection key, one DNS name, one address), limit_per_host unset, no proxy/TLS, traces=[]; idle "
     "pooled connections stay connected (no peer close, keep-alive never expires during a history).",
-    "Configured timeouts are non-negative; the peer never sends the end of the body before the caller reads, and sends "
-    "nothing while reading is paused or after a sock_read timeout has been latched.",
+    "Configured timeouts are non-negative; the peer sends nothing while reading is paused or after a sock_read timeout has "
+    "been latched.  The end of the body before the caller reads is generated for Content-Length responses (one segment "
+    "with more than 2 x read_bufsize bytes and the end); for chunked responses the chunk parser itself pauses mid-segment, "
+    "which is not an event of the model.",
+    "Open known finding C18-stale-reader-resumes-foreign-connection: reading a completely received response resumes the "
+    "connection even when it belongs to another, paused request by then; the model leaves other requests alone, random "
+    "histories stay away from that step and the corpus case is evaluated by the oracle only.",
     "The await points at which cancellation is tried are the event-loop iteration boundaries of the real loop "
     "(instrumentation), not an enumeration proved complete.",
     "Model/implementation agreement is validated on the generated histories only.",
@@ -326,14 +333,39 @@ class World:
 
     # -- a WebSocket caller: handshake, then (on "ws_close") ws.close()
     async def _ws_client(self, t, cfg):
+        """cfg: ws_close / ws_receive (ticks or None) go into timeout=ClientWSTimeout(...) when "use_timeout";
+        receive_timeout (ticks) is the deprecated float parameter; "do_receive": call ws.receive() before closing."""
         import aiohttp
+        import warnings
+        kw = {}
+        if cfg.get("use_timeout", True):
+            tk = {}
+            if cfg.get("ws_close") is not None:
+                tk["ws_close"] = cfg["ws_close"] / TPS
+            if cfg.get("ws_receive") is not None:
+                tk["ws_receive"] = cfg["ws_receive"] / TPS
+            kw["timeout"] = aiohttp.ClientWSTimeout(**tk)
+        if cfg.get("receive_timeout") is not None:
+            kw["receive_timeout"] = cfg["receive_timeout"] / TPS
+        self.ws_events = []
         try:
-            async with self.session.ws_connect("http://origin.test/ws",
-                                               timeout=aiohttp.ClientWSTimeout(ws_close=cfg["ws_close"] / TPS)) as ws:
+            with warnings.catch_warnings():
+                warnings.simplefilter("ignore", DeprecationWarning)
+                cm = self.session.ws_connect("http://origin.test/ws", **kw)
+            async with cm as ws:
                 self.head_at[t] = self.tick()
+                if cfg.get("do_receive"):
+                    self.ws_events.append(("receive_start", self.tick()))
+                    try:
+                        msg = await ws.receive()
+                        self.ws_events.append(("receive_returned", self.tick(), str(msg.type)))
+                    except asyncio.TimeoutError:
+                        self.ws_events.append(("receive_timeout", self.tick()))
                 await self.gate[t].wait()
                 self.ws_close_started = self.tick()
+                self.ws_events.append(("close_start", self.tick()))
                 ok = await ws.close()
+                self.ws_events.append(("close_returned", self.tick()))
                 self.ws_result = {"returned": ok, "close_code": ws.close_code, "closed": ws.closed}
             self.outcome[t] = ("ok", self.tick())
         except BaseException as e:  # noqa
@@ -397,8 +429,9 @@ class World:
         elif op == "bytes":                       # stall sweep: deliver up to an absolute offset
             self.deliver(st[1], st[2])
         elif op == "ws_start":
-            t, cfg = st[1], st[2]
+            t, cfg = st[1], dict(st[2], ws=True)
             self.cfg[t] = cfg
+            self.eff_total[t] = 300 * TPS            # the handshake runs under the session's default ClientTimeout
             self.gate[t] = asyncio.Event()
             self.started_at[t] = self.tick()
             task = self.loop.create_task(self._ws_client(t, cfg))
@@ -750,7 +783,7 @@ class Oracle:
                     P.append(f"request {t} was cancelled although nobody cancelled it")
             elif kind != "ok":
                 P.append(f"request {t} failed with {kind} (no peer error was injected)")
-            elif "ws_close" not in cfg and w.bodies.get(t) != PLAIN:
+            elif not cfg.get("ws") and "ws_close" not in cfg and w.bodies.get(t) != PLAIN:
                 P.append(f"request {t} completed with a wrong body ({len(w.bodies.get(t) or b'')} bytes)")
         # ---- residue
         c = w.connector
@@ -1411,9 +1444,85 @@ def run_ws_close(T, offset, peer, cancel_k=None):
             w.close()
 
 
+WS_DEFAULT_CLOSE = 10 * TPS         # client_ws.DEFAULT_WS_CLIENT_TIMEOUT.ws_close
+
+
+def ws_matrix():
+    """How the timeouts of a WebSocket can be spelled x where the peer stalls.  -> (cfg, phase, close bound,
+    receive bound)"""
+    out = []
+    for name, cfg, cb, rb in (
+            ("timeout(ws_close)", {"use_timeout": True, "ws_close": 40}, 40, None),
+            ("timeout(ws_close,ws_receive)", {"use_timeout": True, "ws_close": 40, "ws_receive": 24}, 40, 24),
+            ("receive_timeout", {"use_timeout": False, "receive_timeout": 24}, WS_DEFAULT_CLOSE, 24),
+            ("timeout(ws_close)+receive_timeout", {"use_timeout": True, "ws_close": 40, "receive_timeout": 24}, 40, 24),
+            ("timeout(ws_close,ws_receive)+receive_timeout", {"use_timeout": True, "ws_close": 56, "ws_receive": 90, "receive_timeout": 24}, 56, 24),
+            ("neither", {"use_timeout": False}, WS_DEFAULT_CLOSE, None)):
+        for phase in ("close", "receive", "handshake"):
+            if phase == "receive" and rb is None:
+                continue
+            out.append((name, cfg, phase, cb, rb))
+    return out
+
+
+def run_ws_matrix(name, cfg, phase, close_bound, recv_bound, offset=3):
+    w = World(limit=1, offset=offset)
+    problems = []
+    closed = False
+    try:
+        c = dict(cfg, do_receive=(phase == "receive"))
+        for st in (["ws_start", 0, c], ["dns"], ["conn", 0], ["adv", 1]):
+            w.apply(st)
+        if phase == "handshake":
+            # the peer never answers the upgrade request: bounded by the session's total timeout (default 5 min)
+            w.apply(["adv", 300 * TPS + TPS])
+            out = w.outcome.get(0)
+            if out is None or out[0] != "total_timeout" or out[1] > ceil_tick(w.started_at[0] + 300 * TPS):
+                problems.append(f"[{name}] WebSocket handshake against a silent peer: expected the session total timeout, got {out}")
+        else:
+            w.apply(["ws_accept", 0])
+            w.apply(["adv", 2])
+            if phase == "receive":
+                w.apply(["adv", recv_bound + 8])
+                ev = dict((e[0], e[1]) for e in w.ws_events)
+                if "receive_timeout" not in ev:
+                    problems.append(f"[{name}] ws.receive() against a silent peer did not time out after {recv_bound} ticks: {w.ws_events}")
+                elif ev["receive_timeout"] > ev["receive_start"] + recv_bound:
+                    problems.append(f"[{name}] ws.receive() timed out at tick {ev['receive_timeout']}, later than {ev['receive_start']} + {recv_bound}")
+            w.apply(["ws_close", 0])
+            w.apply(["adv", close_bound + 40])
+            ev = dict((e[0], e[1]) for e in w.ws_events)
+            if "close_returned" not in ev:
+                problems.append(f"[{name}] ws.close() against a peer that never answers the close frame did not return within "
+                                f"{close_bound} ticks (the configured / default ws_close): {w.ws_events}")
+            elif ev["close_returned"] > ev["close_start"] + close_bound:
+                problems.append(f"[{name}] ws.close() returned at tick {ev['close_returned']}, later than {ev['close_start']} + {close_bound}")
+        snap = w.snapshot()
+        tr = w.tr_of.get(0)
+        if tr is not None and not tr.closed:
+            problems.append(f"[{name}] the WebSocket transport is still open after the {phase} stall")
+        if snap["acq"] or snap["idle"] or snap["timers"] or snap["other_bg"] or snap["writers"] or snap["loop_exceptions"]:
+            problems.append(f"[{name}] residue after the {phase} stall: {brief(snap)} {snap['other_bg']} {snap['loop_exceptions']}")
+        orc = Oracle(w)
+        closed = True
+        orc.finish()
+        problems += orc.problems
+        return {"events": getattr(w, "ws_events", None), "outcome": w.outcome.get(0)}, problems
+    finally:
+        if not closed:
+            w.close()
+
+
 def suite_ws_close(ctx):
     ran = 0
     obs = None
+    for name, cfg, phase, cb, rb in ws_matrix():
+        obs, problems = run_ws_matrix(name, cfg, phase, cb, rb)
+        ran += 1
+        ctx.case(("ws-matrix", name, phase, json.dumps(obs, sort_keys=True, default=str)), nontrivial=True)
+        ctx.count("ws_matrix:" + phase)
+        for p in problems[:3]:
+            ctx.violation({"suite": "ws_matrix", "name": name, "phase": phase}, p)
     for path in sorted(glob.glob(os.path.join(fw.VERIF, "corpus", "C18", "*.json"))):
         c = json.load(open(path))
         c = c.get("case", c)
@@ -1539,6 +1648,12 @@ def replay(ctx, case):
     if suite == "cancel_sweep":
         at, total, obs, problems = run_cancel(CANCEL_BASES[case["base"]], case["k"])
         return {"violates": bool(problems), "why": problems[:5], "impl": obs, "cancel_landed_at_tick": at}
+    if suite == "ws_matrix":
+        for name, cfg, phase, cb, rb in ws_matrix():
+            if name == case["name"] and phase == case["phase"]:
+                obs, problems = run_ws_matrix(name, cfg, phase, cb, rb)
+                return {"violates": bool(problems), "why": problems[:5], "impl": obs}
+        return {"violates": None, "note": "unknown ws_matrix entry"}
     if suite == "ws_close":
         obs, problems = run_ws_close(case["T"], case["offset"], case["peer"], case.get("cancel_k"))
         return {"violates": bool(problems), "why": problems[:5], "impl": obs}
